@@ -204,10 +204,15 @@ def moveP (t : T) (s d : FsPath) : R Unit × T :=
     else if dst = [] then (.err none, t)
     else if !isDir t dst.dropLast then (.err none, t)                   -- destination parent must be a directory
     else
-      let okDst := match get t dst with
+      let okDst : Bool := match get t dst with
         | none => true
-        | some dn => (sn.kind = .file && dn.kind = .file) || (sn.kind = .dir && dn.kind = .dir && (below t dst).isEmpty)
-      if !okDst then (.err none, t)
+        | some dn => (sn.kind = Kind.file && dn.kind = Kind.file)
+      -- a directory onto an existing empty directory: rename(2) allows it, the documentation is silent
+      let emptyDirOntoDir : Bool := match get t dst with
+        | some dn => sn.kind = Kind.dir && dn.kind = Kind.dir && (below t dst).isEmpty
+        | none => false
+      if emptyDirOntoDir then (.unspecified, t)
+      else if !okDst then (.err none, t)
       else
         let moved := t.nodes.filterMap (fun kv => if isPrefixOrEq s kv.1 then some (dst ++ kv.1.drop s.length, kv.2) else none)
         let rest := t.nodes.filter (fun kv => !(isPrefixOrEq s kv.1) && kv.1 ≠ dst)
